@@ -100,7 +100,20 @@ func rulesC14(w *World, o *Out) {
 			fresh := reachAvoidingRaw(holder, ps.Instr, map[ssa.Instruction]bool{ps.Instr: true}, siteSet(hCaches)) == nil
 			// a message that cannot be processed is skipped, the rest of its queue is still processed in this block
 			skips := false
-			if hf := ps.Instr.Parent(); hf != nil {
+			// (where the per-message work was wrapped into a helper that holds no loop itself, the question is
+			// asked at the helper's call instead)
+			site := ps.Instr
+			for lift := 0; lift < 2; lift++ {
+				hf0 := site.Parent()
+				if hf0 == nil || !isNewHelper(hf0) || len(ctxSites[hf0]) != 1 {
+					break
+				}
+				if reachAvoidingRaw(hf0, site, map[ssa.Instruction]bool{site: true}, nil) != nil {
+					break // the loop over the messages is in here
+				}
+				site = ctxSites[hf0][0]
+			}
+			if hf := site.Parent(); hf != nil {
 				for _, b := range hf.Blocks {
 					iff, isIf := b.Instrs[len(b.Instrs)-1].(*ssa.If)
 					if !isIf {
@@ -115,7 +128,7 @@ func rulesC14(w *World, o *Out) {
 					}
 					from := false
 					for _, c := range callsBehind(f.V) {
-						if ssa.Instruction(c) == ps.Instr {
+						if ssa.Instruction(c) == site {
 							from = true
 						}
 					}
@@ -126,7 +139,7 @@ func rulesC14(w *World, o *Out) {
 					if f.Kind == FNil {
 						errSucc = b.Succs[1]
 					}
-					if ReachFromTop(hf, errSucc, map[ssa.Instruction]bool{ps.Instr: true}, nil) != nil {
+					if ReachFromTop(hf, errSucc, map[ssa.Instruction]bool{site: true}, nil) != nil {
 						skips = true
 					}
 				}
